@@ -2,7 +2,8 @@ import Lean.Data.Json
 import PynguinModel.Model.TestCaseAssert
 /-! Line-protocol driver for C19: one JSON case per line in
 (`{"stmts":[...],"ops":[...],"noXfail":b,"importOk":b,"outs":[...],"excs":null|[...]}`), one JSON line out:
-the abstraction of the test case after every post-processing step, after the `remove_unused_variables()` of
+the abstraction of the test case after every post-processing step (for a visit of
+`UnusedStatementsTestCaseVisitor` also its `deleted_statement_indexes`), after the `remove_unused_variables()` of
 `TestSuiteWriter.write`, the per-statement exception list and the emitted function body.
 Names: JSON number `k` = `var_k`, JSON string = any other name. -/
 open Lean PynguinModel.TestCase PynguinModel.TestCaseAssert
@@ -63,7 +64,12 @@ def stepJ (l : List AStmt) (op : Op) : List AStmt × Json :=
   let err := match op with
     | .removeFwd i => (removeFwd l i).isNone
     | _ => false
-  (l', Json.mkObj [("stmts", stmtsJ l'), ("indexError", toJson err), ("readsOK", toJson (readsOKb [] l'))])
+  -- `visitor.deleted_statement_indexes` after an `UnusedStatementsTestCaseVisitor` visit (`null` for other steps)
+  let deleted : Json := match op with
+    | .visitUnused => toJson (visitUnused l).2
+    | _ => Json.null
+  (l', Json.mkObj [("stmts", stmtsJ l'), ("indexError", toJson err), ("readsOK", toJson (readsOKb [] l')),
+                   ("deleted", deleted)])
 
 def runCase (c : Case) : Json :=
   let (l, tr) := c.ops.foldl (fun (acc : List AStmt × Array Json) op =>
